@@ -556,7 +556,12 @@ def stmt_conditions(stmts, base=None):
     out = {}
 
     def ends_exit(body):
-        return bool(body) and isinstance(body[-1], (ast.Continue, ast.Return, ast.Raise, ast.Break))
+        if not body:
+            return False
+        last = body[-1]
+        if isinstance(last, (ast.Continue, ast.Return, ast.Raise, ast.Break)):
+            return True
+        return isinstance(last, ast.If) and ends_exit(last.body) and ends_exit(last.orelse)
 
     def go(lst, conds):
         conds = list(conds)
